@@ -294,6 +294,9 @@ func init() {
 				structCover("groups", fam.Groups, rec, false, 4, 40, 2, 1),
 				wideCover("groups", fam.Groups, rec, false, 40, 1),
 				structCover("reenter", fam.Reenter, recBoth, false, 25, 200, 2, 1),
+				// one key registered in several scopes of a tree that grows while values are built:
+				// every scope hands out the instance of its own nearest registration, one each
+				structCover("shadow", fam.Shadow, rec, false, 30, 0, 2, 0),
 			},
 			traces: stdTraces("once", medium, 0.1, stdOpts)})})
 
@@ -325,6 +328,8 @@ func init() {
 				randCover("missing", tweak(small, func(f *fam.Features) { f.POpt = 0.45; f.Ctors = 3; f.Types = 4; f.PGroup = 0.1 }), recBoth, 60, 500, 1),
 				structCover("chain", fam.Chain, rec, false, 40, 500, 2, 1),
 				wideCover("chain", fam.Chain, recBoth, false, 300, 1),
+				// a gap far below an optional edge: behind a value group, behind a decorator
+				structCover("gaps", fam.Gaps, rec, false, 40, 0, 2, 0),
 			},
 			traces: stdTraces("missing", tweak(medium, func(f *fam.Features) { f.POpt = 0.4; f.Types = 6 }), 0.1, stdOpts)})})
 
@@ -450,8 +455,8 @@ func init() {
 			sig:    true})})
 
 	register(&propDef{id: "C10",
-		projection: "bag of provenance of every hard group slice, execution counters of feeders",
-		kinds:      []string{"args.grp", "snap.grps"},
+		projection: "bag of provenance of every hard group slice, execution counters of feeders, a consumer of a group being called at all (no panic on the way)",
+		kinds:      []string{"args.grp", "snap.grps", "crash"},
 		extra: func(k, d string) bool {
 			return k == "exec.extra" || k == "exec.missing"
 		},
@@ -463,6 +468,8 @@ func init() {
 				wideCover("softnest", fam.SoftNest, rec, false, 60, 0),
 				structCover("groupcycle", fam.GroupCycle, rec, false, 10, 100, 2, 0),
 				wideCover("keys", fam.Keys, rec, false, 100, 0),
+				// a group of interfaces, nil interfaces among the flattened members
+				structCover("ifacegroups", fam.IfaceGroups, rec, false, 40, 0, 2, 0),
 				randCover("groups-rand", tweak(small, groupy), rec, 40, 400, 0),
 				randCover("groups-after-failures", tweak(small, groupy), recBoth, 40, 400, 1),
 			},
@@ -497,6 +504,8 @@ func init() {
 				structCover("groups", fam.Groups, rec, false, 16, 60, 2, 0),
 				wideCover("groups", fam.Groups, rec, false, 100, 0),
 				randCover("dec-rand", tweak(small, decy), rec, 40, 400, 0),
+				// one decorator per key and scope: every pair of decorators meeting in a scope
+				structCover("decpairs", fam.DecPairs, rec, false, 48, 0, 2, 0),
 			},
 			traces: stdTraces("dec", tweak(medium, decy), 0, stdOpts)})})
 
@@ -534,7 +543,11 @@ func init() {
 		projection: "verdicts, executed functions and per-position provenance across equivalent encodings of the same signatures",
 		kinds:      []string{"args", "exec.extra", "exec.missing", "verdict", "info", "pair.enc"},
 		run: genericRun(stagePlan{
-			covers: []coverPlan{randCover("encodings", tweak(small, func(f *fam.Features) { f.PObj = 0.6; f.PMulti = 0.5 }), rec, 100, 600, 0)},
+			covers: []coverPlan{
+				randCover("encodings", tweak(small, func(f *fam.Features) { f.PObj = 0.6; f.PMulti = 0.5 }), rec, 100, 600, 0),
+				// where resolution stops after a failure is the same for fields as for positions
+				randCover("encodings-faults", tweak(small, func(f *fam.Features) { f.PObj = 0.7; f.PMulti = 0.3; f.MaxParams = 3 }), recBoth, 40, 300, 1),
+			},
 			traces: pairTraces("encodings", tweak(medium, func(f *fam.Features) { f.PObj = 0.5; f.PMulti = 0.5 }), stdOpts, []string{"enc", "enc"}, 40, 400),
 			sig:    true})})
 
@@ -551,6 +564,8 @@ func init() {
 				structCover("chain", fam.Chain, deferBoth, false, 50, 500, 2, 0),
 				structCover("groups", fam.Groups, deferBoth, false, 10, 40, 2, 0),
 				digraphCover("digraphs-grp", "grp", deferBoth, 60, 800),
+				// two decorators arriving in either order: the same one is refused, or none
+				structCover("decpairs", fam.DecPairs, deferBoth, false, 48, 0, 2, 0),
 			},
 			traces: pairTraces("orders", tweak(medium, func(f *fam.Features) { f.PInvalid = 0.5 }), deferBoth, []string{"perm", "perm", "scope-early", "scope-late", "defer"}, 25, 300),
 			extra: func(rep *Report, def *propDef) {
